@@ -10,7 +10,7 @@ def _first_crate_frame(text):
 
 
 def _src_frame(text):
-    m = re.search(r'(/repo/src/[A-Za-z0-9_/.]+:\d+)', text)
+    m = re.search(r'(' + re.escape(R.REPO.rstrip('/')) + r'/src/[A-Za-z0-9_/.]+:\d+)', text)
     return m.group(1) if m else None
 
 
